@@ -27,6 +27,21 @@ func registry() map[string]*Rule {
 		{Name: "ID1", Floor: 3, Run: ruleID1, Doc: "a document record is written under a key built from its own ObjectId(), or behind an equality test between its ObjectId() and the id the key was built from"},
 		{Name: "ID2", Floor: 4, Run: ruleID2, Doc: "Tx.Set of a document is reached only after document.Validate accepted it; every save is behind a nil test of Tx.Get on the same key or saves scan-produced documents"},
 		{Name: "ID3", Floor: 1, Run: ruleID3, Doc: "a generated _id is assigned only when _id is absent or empty"},
+		{Name: "PLAN1", Floor: 4, Run: rulePLAN1, Doc: "every candidate an input node emits is guarded by filter == nil || filter.Satisfy(doc) on the same document, and every input node is built with filter = Criteria() of the query being planned"},
+		{Name: "PLAN2", Floor: 2, Run: rulePLAN2, Doc: "Range.Intersect is reached only where the visited node is known to be LogicalAnd; a range visitor returns no range for a non-conjunction"},
+		{Name: "PLAN3", Floor: 5, Run: rulePLAN3, Doc: "the negation push-down never returns an unvisited child, and the range visitor derives nothing under Not"},
+		{Name: "PLAN4", Floor: 2, Run: rulePLAN4, Doc: "in the plan builder no SetNext edge leads from the skip/limit node to a sort node or out of the consumer node"},
+		{Name: "PLAN5", Floor: 2, Run: rulePLAN5, Doc: "every value stored into Query.sortOpts is nil, copied from a query, or built only from literals with Direction = +-1"},
+		{Name: "PLAN6", Floor: 8, Run: rulePLAN6, Doc: "the negation table (Not over comparison -> complement) and the comparison->range table equal the mathematically fixed tables, row by row"},
+		{Name: "CMP1", Floor: 30, Run: ruleCMP1, Doc: "TypeId, evaluated by type-tag abstract interpretation for the nine canonical types, yields single-digit ranks in the order nil < number < string < object < array < bool < time (numbers share one rank)"},
+		{Name: "CMP2", Floor: 4, Run: ruleCMP2, Doc: "functions reachable from the comparators contain no subtraction of unbounded integers and no unguarded 64-bit sign conversion"},
+		{Name: "CMP3", Floor: 90, Run: ruleCMP3, Doc: "for every pair of canonical dynamic types, abstract evaluation of Compare ends in a return on every path (no failing unchecked assertion, no panic) and different classes are ordered by rank alone; OrderedCode and IsNumber handle every canonical type"},
+		{Name: "CMP4", Floor: 4, Run: ruleCMP4, Doc: "in package query every operand of internal.Compare is a document value or a result of internal.Normalize"},
+		{Name: "CMP5", Floor: 20, Run: ruleCMP5, Doc: "Normalize's kind switch covers every numeric width, string, bool, struct, map, slice and array and returns the canonical type for each; every return is canonical, nil, or a listed pass-through; Document.Set touches the document only when normalisation succeeded"},
+		{Name: "COD1", Floor: 3, Run: ruleCOD1, Doc: "the time wrapper is unreachable from Decode, the unwrapper from Encode, and each transformer recurses into itself"},
+		{Name: "COD2", Floor: 3, Run: ruleCOD2, Doc: "the library uses only msgpack.Marshal/Unmarshal/RegisterExt (default, type-preserving configuration)"},
+		{Name: "ADP1", Floor: 1, Run: ruleADP1, Doc: "every store.Tx.Get implementation maps the backend's not-found outcome to (nil, nil) before the generic error test"},
+		{Name: "ADP2", Floor: 8, Run: ruleADP2, Doc: "no method of a store.Cursor implementation branches on the value component of the backend cursor position or of store.Item"},
 	}
 	m := map[string]*Rule{}
 	for _, r := range rules {
